@@ -580,9 +580,17 @@ def generate(seed, tier):
     def gen_op(allow_fault=True):
         k = r.choices(
             ["hash", "eq", "lookup", "copy", "deepcopy", "pickle", "map", "rebind", "delete",
-             "addattr", "eqforeign", "sweep"],
+             "addattr", "eqforeign", "sweep", "copyrebind", "retarget"],
             weights=[14, 22, 16, 6, 6, 8, 8, 7 if not optimized else 0,
-                     3 if not optimized else 0, 2 if not optimized else 0, 3, 4])[0]
+                     3 if not optimized else 0, 2 if not optimized else 0, 3, 4, 3, 1])[0]
+        if k == "copyrebind":
+            # a copy is taken and a field of the *copy* is rebound (which works on legacy
+            # objects, and on every object under -O): the original must not notice
+            return ["copyrebind", r.choice(names), r.choice(["copy", "deepcopy", "pickle"]),
+                    r.randint(0, 3), r.choice([["i", 99], ["s", "zz"]])]
+        if k == "retarget":
+            # a user class is pointed at another mapper method at run time
+            return ["retarget", r.choice(names)]
         if k == "hash":
             return ["hash", r.choice(names)]
         if k == "eq":
@@ -1022,6 +1030,41 @@ def execute(scenario, open_sigs):
             else:
                 check_unchanged(tgt)
             return [k, raised]
+        if k == "copyrebind":
+            o = W.objs[tgt]
+            how = op[2]
+            try:
+                n2 = (copy.copy(o) if how == "copy" else copy.deepcopy(o) if how == "deepcopy"
+                      else pickle.loads(pickle.dumps(o)))
+            except pickle.PicklingError:
+                return ["skip"]
+            fns = field_names(n2)
+            if not fns:
+                return ["skip"]
+            fname = fns[op[3] % len(fns)]
+            try:
+                setattr(n2, fname, B.build(op[4]))
+                done = True
+            except (AttributeError, TypeError):
+                done = False
+            if done:
+                probe("fields_rebound_on_copies")
+                # whether the rebinding itself should have been refused is the business of the
+                # rebind op; here: the object the copy was taken from is what it was
+                check_unchanged(tgt)
+                if violation is not None:
+                    violation["detail"]["after"] = f"{how}, then rebinding {fname} on the copy"
+            return ["copyrebind", done]
+        if k == "retarget":
+            o = W.objs[tgt]
+            cls = type(o)
+            if cls.__name__ in uc_kind:
+                try:
+                    cls.mapper_method = "map_retargeted_" + cls.__name__.lower()
+                    probe("classes_retargeted")
+                except (AttributeError, TypeError):
+                    pass
+            return ["retarget"]
         if k == "sweep":
             sweep()
             return ["sweep"]
